@@ -78,6 +78,9 @@ def run(tier, seed, replay=None):
         scases = ["save3 name=%s opts=%s" % (f, o) for f in samples for o in ("raw", "default")]
         # edited models: positions / texture coordinates set through the API to values no binary16 holds exactly
         scases += ["save3 name=%s opts=%s perturb=1" % (f, o) for f in samples for o in ("raw", "default")]
+        # files whose mapped partition triangles are not stored smallest-index-first (the partition query between the
+        # saves builds a cache from them; a save must not rewrite the stored lists from it)
+        scases += ["save3 name=%s opts=%s rotparts=1" % (f, o) for f in samples if "Skinned" in f or "_LE" in f or "_OB" in f for o in ("raw", "default")]
         # edited models: a root with many children (more than any sample has)
         scases += ["save3 name=%s opts=default kids=%d" % (f, k) for f in samples[::3] for k in ((24,) if tier == "quick" else (17, 24, 60))]
         # edited models: one child reference emptied (a sub-tree becomes unreferenced), then three default saves
